@@ -1,7 +1,20 @@
 pub mod bloom;
 pub mod crdt;
+#[cfg(feature = "e_richtext")]
+pub mod richtext;
+#[cfg(feature = "e_patches")]
+pub mod patches;
+#[cfg(feature = "e_crdtx")]
+pub mod crdtx;
+#[cfg(feature = "e_hexane")]
 pub mod hexane;
+#[cfg(feature = "e_ids")]
+pub mod ids;
+#[cfg(feature = "e_recon")]
+pub mod recon;
+#[cfg(feature = "e_serde")]
 pub mod serde_cli;
+#[cfg(feature = "e_sync")]
 pub mod sync;
 
 use crate::{rng::Rng, Out, Session};
@@ -16,9 +29,16 @@ pub fn dispatch(sess: &mut Session, toks: &[&str]) -> Vec<String> {
     let engine = cmd.split('.').next().unwrap();
     match engine {
         "bloom" => bloom::exec(toks),
+        #[cfg(feature = "e_hexane")]
         "hexane" => hexane::exec(toks),
+        #[cfg(feature = "e_ids")]
+        "ids" => ids::exec(toks),
+        #[cfg(feature = "e_recon")]
+        "recon" => recon::exec(toks),
+        #[cfg(feature = "e_serde")]
         "serde" => serde_cli::exec(toks),
         "crdt" => crdt::exec(&mut sess.crdt, toks),
+        #[cfg(feature = "e_sync")]
         "sync" => sync::exec(&mut sess.sync, toks),
         _ => vec![format!("unknown-engine {}", engine)],
     }
@@ -27,10 +47,23 @@ pub fn dispatch(sess: &mut Session, toks: &[&str]) -> Vec<String> {
 pub fn generate(engine: &str, r: &mut Rng, opts: &BTreeMap<String, String>, sess: &mut Session, out: &mut Out) {
     match engine {
         "bloom" => bloom::generate(r, opts, sess, out),
+        #[cfg(feature = "e_hexane")]
         "hexane" => hexane::generate(r, opts, sess, out),
+        #[cfg(feature = "e_ids")]
+        "ids" => ids::generate(r, opts, sess, out),
+        #[cfg(feature = "e_recon")]
+        "recon" => recon::generate(r, opts, sess, out),
+        #[cfg(feature = "e_serde")]
         "serde" => serde_cli::generate(r, opts, sess, out),
         "crdt" => crdt::generate(r, opts, sess, out),
         "storage" => crdt::generate_storage(r, opts, sess, out),
+        #[cfg(feature = "e_richtext")]
+        "richtext" => richtext::generate(r, opts, sess, out),
+        #[cfg(feature = "e_patches")]
+        "patches" => patches::generate(r, opts, sess, out),
+        #[cfg(feature = "e_crdtx")]
+        "crdtx" => crdtx::generate(r, opts, sess, out),
+        #[cfg(feature = "e_sync")]
         "sync" => sync::generate(r, opts, sess, out),
         _ => panic!("unknown engine {}", engine),
     }
